@@ -341,7 +341,7 @@ CORPUS = [
     ("A o-2147483647 < c", "octave"), ("A o2147483647 >> c", "octave"), ("@M1 V0:1:1073741824\nA M1 o4 c", "boundary"), ("@M1 V0:1:2147483647\nA M1 o4 c", "boundary"),
     ("A o4 cdefg *40000 cdefg cdefg\n*40000 o4 cdefgab cdefgab cdefgab", "d3"), ("A o4 cdefg *65535 cdefg cdefg\n*65535 o4 cdefgab cdefgab cdefgab", "d3"),
     ("A o4 cdefg *32767 cdefg cdefg\n*32767 o4 cdefgab cdefgab cdefgab", "d3"),
-    # raw 'cmd' platform command: any MDSDRV event; loop end / loop break outside a loop (fix c5dd456: was top() of an empty stack)
+    # raw 'cmd' platform command: any MDSDRV event; loop end / loop break outside a loop (fix 3e0ed67: was top() of an empty stack)
     ("A 'cmd 251 2' c", "raw-cmd"), ("A 'cmd 252 0' c", "raw-cmd"), ("A P100 c\n*100 'cmd 252 0' c", "raw-cmd"), ("A P100 c\n*100 'cmd 251 3' c", "raw-cmd"),
     ("A [c 'cmd 252 0' d]2", "raw-cmd"), ("A 'cmd 250 0' c 'cmd 251 2'", "raw-cmd"), ("A 'cmd 250' c", "raw-cmd"), ("A 'cmd 245 0' c", "raw-cmd"), ("A 'cmd 255 0' c 'cmd 251 1'", "raw-cmd"),
     ("A 'cmd 254 7' c", "raw-cmd"), ("A 'cmd 254 300' c", "raw-cmd"), ("A 'cmd 225 9' c", "raw-cmd"), ("A 'cmd 235 1' c", "raw-cmd"), ("A 'cmd' c", "raw-cmd"), ("A 'cmd x y' c", "raw-cmd"),
@@ -781,7 +781,7 @@ LEVEL_TEXT = ("Level `other` (mixed proof + execution, stated as partial). PROVE
               "find_match_length never reads event_list outside its bounds, Song::get_track is never called on a missing track, and the Song_Validator run after every pass ends — the run with the executable validator is "
               "shown equal to the run with the ideal validator (C15_optimize_routed, C15_optimizer_never_foreign, C15_stack_lists_complete); (5) export mds — for EVERY input the converter model never fails in the RIFF writer, "
               "never reports at() on an empty stream, never indexes data_bank outside the bank and its writer's player never hits the vector::at of the final-pass break (C15_mds_export_no_ub, C15_mds_export_routed); the two other "
-              "undefined-behaviour constructors of the model were REACHABLE and are repaired in the repository: header_size wrapping at 16 bits (8d409a9) and a raw `cmd` loop end outside a loop = top() of an empty std::stack, SIGSEGV (c5dd456); "
+              "undefined-behaviour constructors of the model were REACHABLE and are repaired in the repository: header_size wrapping at 16 bits (5952bf5) and a raw `cmd` loop end outside a loop = top() of an empty std::stack, SIGSEGV (3e0ed67); "
               "(6) RIFF reader, conf parser, VGM writer have no UB outcome (collected from C13/C20/C08); (7) the composition (C15_pipeline_total_partial, C15_pipeline_terminates) and the mds path without -O with no residual at all under two hypotheses "
               "decided by evaluation (C15_pipeline_total_mds_partial). "
               "NOT PROVED, tested: the MODEL's writer budget (20 000 000 steps per stream, depth 64), the driver model's vector::at / non-integer-step / writer-fault outcomes (VgmNoUB), that the linker accepts what the converter wrote (LinkOK), "
